@@ -216,13 +216,14 @@ namespace GeographicLib {
       xi = AuxAngle( copysign(qv, phi.y()), phin.x() * sqrt(Dqp * Dqm) );
     }
     if (diff) {
-      if (!isnan(tphi)) {
+      if (isfinite(tphi)) {
         real cbeta = Parametric(phi).normalized().x(),
           cxi = xi.normalized().x();
         *diff =
           (2/_q) * Math::sq(cbeta / cxi) * (cbeta / cxi) * (cbeta / phin.x());
       } else
-        *diff = _e2m1 * sqrt(_q/2);
+        // The limit for tphi = +/-inf; pass a NaN through
+        *diff = isnan(tphi) ? tphi : _e2m1 * sqrt(_q/2);
     }
     return xi;
   }
